@@ -67,6 +67,7 @@ type Engine struct {
 	specEval       int
 	fdecls         map[string]*frameDecl
 	usedAts        map[*AtSpec]bool
+	usedRangeSpecs map[*LoopSpec]bool
 	modsetCache    map[*ssa.Function]map[string]bool
 }
 
@@ -87,7 +88,7 @@ func NewEngine(p *Prog, u *Unit) *Engine {
 		interiorPtrRev: map[string]*Ptr{}, closureRev: map[string]Val{}, assumptions: map[string]bool{},
 		unmodelled: map[string]bool{}, usedContracts: map[string]bool{}, usedLib: map[string]bool{},
 		loops: map[*ssa.Function]map[*ssa.BasicBlock]*loopInfo{}, globalsSeen: map[*ssa.Global]string{},
-		maxPaths: 6000, callOrd: map[*ssa.Function]map[ssa.Instruction]string{}, usedAts: map[*AtSpec]bool{}, modsetCache: map[*ssa.Function]map[string]bool{}}
+		maxPaths: 6000, callOrd: map[*ssa.Function]map[ssa.Instruction]string{}, usedAts: map[*AtSpec]bool{}, usedRangeSpecs: map[*LoopSpec]bool{}, modsetCache: map[*ssa.Function]map[string]bool{}}
 	return e
 }
 
